@@ -21,7 +21,8 @@ func c17dirty() *protocol.URI {
 
 func init() {
 	register(&Unit{Name: "c17.uri", Props: []string{"C17"},
-		// in: scheme, host, path bytes, hash bytes, mode (0 args through QueryArgs, 1 raw query string), k, v, k, v ...
+		// in: scheme, host, path bytes, hash bytes, mode (0 args through QueryArgs, 1 raw query string, 2 a raw query
+		// string set after other arguments had been added through QueryArgs on the same object), k, v, k, v ...
 		Check: func(t *T, in In) []Finding {
 			scheme, host, path, hash, mode := in.S(0), in.S(1), in.B(2), in.B(3), in.N(4)
 			if len(path) == 0 || path[0] != '/' {
@@ -43,6 +44,10 @@ func init() {
 				} else {
 					raw = append(raw, string(in.B(i))+"="+string(in.B(i+1)))
 				}
+			}
+			if mode == 2 { // the raw query string set last replaces whatever was there
+				u.QueryArgs().Add("stale", "x")
+				mode = 1
 			}
 			if mode == 1 {
 				u.SetQueryString(strings.Join(raw, "&"))
@@ -117,11 +122,11 @@ func init() {
 			}
 			for i := 0; i < t.Scale(4000, 120000); i++ {
 				path := append([]byte("/"), rnd(8)...)
-				mode := t.R.Intn(2)
-				in := In{S([]string{"http", "https"}[t.R.Intn(2)]), S(hosts[t.R.Intn(len(hosts))]), H(path), H(rnd(5)), Nn(mode)}
+				mode := t.R.Intn(3)
+				in := In{S([]string{"http", "https", "http", "https", "soap.beep", "a+b-c.d", "x-1"}[t.R.Intn(7)]), S(hosts[t.R.Intn(len(hosts))]), H(path), H(rnd(5)), Nn(mode)}
 				for k, n := 0, t.R.Intn(4); k < n; k++ {
 					key, val := rnd(4), rnd(4)
-					if mode == 1 { // a raw query string is taken as is: keep it free of the delimiters of the other parts
+					if mode >= 1 { // a raw query string is taken as is: keep it free of the delimiters of the other parts
 						key = bytes.Map(func(r rune) rune {
 							if strings.ContainsRune("#&=", r) {
 								return 'x'
